@@ -78,6 +78,7 @@ def observer(got, pred, sp, call, sg, prog, ctx, part):
                 bad('%s raises %s' % (api, type(e).__name__), {'V': V})
                 return
             bump(part, 'closures', getattr(fn, '__name__', '?'))
+            pb = progjudge.PointBuffer()
             for pt in pts1:
                 try:
                     want = want_matrix([(got, sp)], V, pt)
@@ -85,7 +86,7 @@ def observer(got, pred, sp, call, sg, prog, ctx, part):
                     bump(part, 'points_skipped_irregular')
                     continue
                 try:
-                    have = call_(np.array([float(pt[n]) for n in V], dtype=float))
+                    have = call_(pb.at([float(pt[n]) for n in V]))
                 except Exception as e:
                     bad('%s callable raises %s' % (api, type(e).__name__), {'V': V})
                     return
@@ -103,13 +104,14 @@ def observer(got, pred, sp, call, sg, prog, ctx, part):
                 bad('compile_jacobian raises %s' % type(e).__name__, {'V': V, 'rows': len(rows)})
                 return
             bump(part, 'closures', getattr(fn, '__name__', '?'))
+            pb = progjudge.PointBuffer()
             for pt in pts:
                 try:
                     want = want_matrix(rows, V, pt)
                 except Irregular:
                     continue
                 try:
-                    have = fn(np.array([float(pt[n]) for n in V], dtype=float))
+                    have = fn(pb.at([float(pt[n]) for n in V]))
                 except Exception as e:
                     bad('compile_jacobian callable raises %s' % type(e).__name__, {'V': V})
                     return
@@ -121,9 +123,11 @@ def observer(got, pred, sp, call, sg, prog, ctx, part):
 def run(report, tier):
     apirun.run_config(report, 'MC_C01', observer=observer, report_kinds=('S',), overrides={'Want': '<-MC_WantDV'})
     apirun.run_config(report, 'MC_C01M', observer=observer, report_kinds=('S',), overrides={'Want': '<-MC_WantDV'})
+    if tier == 'thorough':      # one call deeper over a reduced alphabet (3 functions, 2 literals)
+        apirun.run_config(report, 'MC_C01', observer=observer, report_kinds=('S',), overrides=dict({'MaxCalls': 3, 'Fns': '<-MC_FnsSmall', 'ScalarLits': '<-MC_ScalarLitsSmall'}, Want='<-MC_WantDV'), tag='deep')
     return report.finish(
         rule='every Api program of <= MaxCalls calls with a scalar result: compile_gradient, CompiledExpression.gradient and '
              'compile_jacobian (single row and with the earlier scalars of the program as further rows) for every permutation / '
-             'superset variable list, at up to 3 regular rational points, against the matrix of spec derivatives D(Den(e_i), V_j). '
+             'superset variable list, at up to 3 regular rational points (handed over in one array that is overwritten in place from point to point), against the matrix of spec derivatives D(Den(e_i), V_j). '
              'Closure names are recorded for path coverage only.',
         exhaustive=True)
